@@ -115,6 +115,36 @@ CHECKS = {
 }
 
 CHECKS.update({
+    "C06": (
+        "Hypothesis-generated scoping programs (Engine C: nested let with sequential bindings and re-binding, fn/defn closures, parameters and locals shadowing let names, setv/for to let-bound names, lfor variables shadowing let names under both compilation strategies) differentially executed against a binder-resolving reference interpreter; every read is logged",
+        "Thousands of programs per run at module and function level; the (id, value) log of every read and the final module values of the pool names (incl. a name that must never become a module variable) must equal the reference's.",
+        "Trusts vf/scopes.py (resolver + interpreter transcribed from docs/api.rst and Python's scoping). Programs that would trip CPython 3.12.1's comprehension-inlining bug are avoided by construction and skipped if met.",
+        "scopes", "2/C06"),
+    "C07": (
+        "Hypothesis-generated scoping programs (Engine C: functions, classes with methods, lets, comprehensions; nonlocal/global declarations with several names at random levels, chains, global inside the binding let; negative cases) differentially executed against a binder-resolving reference interpreter; compile-time rejection must coincide",
+        "Thousands of nestings of depth <= 4 per run; reads logged and module variables compared as for C06; declaration-after-use, parameter-and-declared and nonlocal-without-binding must be SyntaxErrors, everything else must compile.",
+        "Trusts vf/scopes.py. Shapes the docs leave open (mid-body nonlocal, nonlocal below an enclosing global declaration, declarations after a use that is captured by a let or lies in a nested function) are not generated.",
+        "scopes", "2/C07"),
+    "C27": (
+        "Hypothesis-generated nested values of every documented type incl. shared and self-referential containers (tagged JSON trees); round trip eval(read(hy.repr(x))) compared type-exactly and NaN-aware; cyclic print-outs compared with the acyclic twin with registered placeholders substituted",
+        "About 5 000 (quick) to 500 000 (thorough) values of depth <= 3/4; failures localised to the smallest failing sub-value. One recorded finding (defaultdict factory) is identified by a root-cause matcher.",
+        "Equality is each type's own ==, NaN equal to NaN; zero sign and deque maxlen are counted, not compared.",
+        "values", "2/C27"),
+    "C34": (
+        "generated symbol pairs (eight derivation relations + curated pairs) x 126 writer>reader construct scenarios over variables, attributes, keyword arguments/parameters and macros; programs compiled and run in fresh modules; namespaces observed from Python under hy.mangle",
+        "Each pair runs on six scenarios round-robin (curated pairs on all): the written object is visible through the reader iff the manglings are equal, and the raw namespace changed under exactly hy.mangle(s).",
+        "hy.mangle is taken as the definition of the identifier (C32/C33 check mangle itself); names with the two recorded C33 shapes are excluded by construction and counted.",
+        "names", "2/C34"),
+    "C38": (
+        "systematic concurrency testing: harness-owned thread scheduler (sys.monitoring INSTRUCTION events on gensym's code + cooperative lock), exhaustive enumeration of all schedules within a pre-emption bound (2 threads <= 2, 3 threads <= 1; thorough up to <= 4 / <= 2) plus Hypothesis-drawn schedules and argument strings; oracle: pairwise distinct Symbols, _hy_ prefix, mangle fixpoint, no deadlock or schedule-dependent exception",
+        "Every interleaving of gensym's bytecode within the bound is executed deterministically and is replayable from JSON; exhaustive within the bound, sampled beyond.",
+        "CPython 3.12 sys.monitoring; interleaving granularity = instructions of gensym's own code (callees in other modules are atomic steps).",
+        "schedules", "2/C38"),
+    "C40": (
+        "enumerated (all input-kind sequences up to length 4/5) and Hypothesis-generated REPL histories and line-split Engine-B programs driven through hy.REPL.runsource; lock-step reference model of *1 *2 *3 *e, by-construction completeness and results",
+        "runsource is truthy exactly on incomplete prefixes; stdout equals the input's prints plus hy.repr of the last value; history variables follow a set-valued model (either convention for failed inputs, no duplicated result); *e by identity.",
+        "Trusts vf/textgen.py's open-construct record for completeness; sys.excepthook is replaced during sessions.",
+        "sessions", "2/C40"),
     "C08": (
         "Hypothesis-generated match forms (pattern trees of depth <= 3, guards, statement-producing bodies, three uses, two scopes) with matching-biased subjects, rendered as Hy and as a Python match statement; differential against CPython (selected case, returned value, bound names, guard/effect log, exception, compile-time rejection)",
         "Every pattern kind of Hy's match sublanguage incl. #* _ / #* rest, #** rest, class patterns with __match_args__, |, :as and keyword patterns; subjects instantiated from a case's pattern and mutated. Sampled.",
@@ -133,7 +163,7 @@ CHECKS.update({
         "operators", "2/C03"),
 })
 
-LEVELS = {"C09": "fault_enumeration"}
+LEVELS = {"C09": "fault_enumeration", "C38": "exploration"}
 
 NOT_YET = "check not built yet (planned in DESIGN.md section 2); not claimed"
 NOT_CLAIMED = {
@@ -177,7 +207,7 @@ def main():
         "engines": [
             {"name": "progs", "path": "vf/progs.py", "serves_properties": ["C01", "C02", "C09", "C12", "C13", "C14", "C17", "C39"],
              "kind_free_text": "Engine A: JSON program IR, Hypothesis generator (vf/proggen.py), renderer to Hy, reference interpreter with series-parallel effect traces, fault-injecting harness"},
-            {"name": "names", "path": "vf/props/c32.py", "serves_properties": ["C32", "C33"],
+            {"name": "names", "path": "vf/props/c32.py", "serves_properties": ["C32", "C33", "C34"],
              "kind_free_text": "code-point enumeration and Hypothesis name strategy"},
             {"name": "textgen", "path": "vf/textgen.py", "serves_properties": ["C18", "C19", "C20", "C21", "C30"],
              "kind_free_text": "Engine B: Hypothesis-drawn syntax trees rendered to Hy text with independently built expected models, spans and open-construct intervals"},
@@ -187,6 +217,14 @@ def main():
              "kind_free_text": "signature/call/body structures rendered both as Hy and as Python, CPython as reference"},
             {"name": "matchgen", "path": "vf/props/c08.py", "serves_properties": ["C08"],
              "kind_free_text": "pattern/subject generator with Hy and Python renderers, CPython's match as reference"},
+            {"name": "scopes", "path": "vf/scopes.py", "serves_properties": ["C06", "C07"],
+             "kind_free_text": "Engine C: scoping-program IR, Hypothesis generator, renderer, binder-resolving reference interpreter"},
+            {"name": "values", "path": "vf/props/c27.py", "serves_properties": ["C27"],
+             "kind_free_text": "tagged JSON value trees incl. sharing and cycles"},
+            {"name": "schedules", "path": "vf/c38_sched.py", "serves_properties": ["C38"],
+             "kind_free_text": "owned thread scheduler on sys.monitoring INSTRUCTION events with a cooperative lock"},
+            {"name": "sessions", "path": "vf/c40_sessions.py", "serves_properties": ["C40"],
+             "kind_free_text": "REPL session driver and history model"},
             {"name": "literals", "path": "vf/props/c22.py", "serves_properties": ["C22", "C23", "C24"],
              "kind_free_text": "per-module structural generators of literal texts (vf/props/c22.py, c23.py, c24.py) with CPython as the reference evaluator"},
         ],
